@@ -6,6 +6,8 @@ CONSTANTS
   WithBadB64 = TRUE
   MxOld = {"none", "m1"}
   GwOld = {"none", "g1"}
+  MaxUpdates = 1
+  PayloadCats = {1, 4, 5}
   AnchorFlows = {}
   Paths <- PathsMC
   Cat <- CatMC
@@ -16,6 +18,8 @@ CONSTANTS
   ApplyNoBackup = FALSE
   NoReloadAfterRestore = FALSE
   MetricsToDefaultPath = FALSE
+  StaleBackup = FALSE
+  RecordHistory = FALSE
 SPECIFICATION SpecMC
 INVARIANTS DiskAtomic BehavAtomic NeverHalf OneConfig
 CHECK_DEADLOCK FALSE
